@@ -206,6 +206,17 @@ pub fn loc_built(v: &[u8]) -> String {
         Ok(e) => if Locale::from_parts(lg, sc, rg, &vs, Some(e)) != loc { return format!("LAWFAIL from_parts(into_parts) differs: {}", text); },
         Err(_) => return format!("LAWFAIL the extension string of into_parts does not parse: {}", ext),
     }
+    // from_parts takes the variants in any order, with duplicates (C17) - with and without an extensions map
+    let mut shuffled = vs.clone(); shuffled.reverse(); if let Some(d) = shuffled.first().copied() { shuffled.push(d); }
+    for with_ext in [true, false] {
+        let e = if with_ext { ext.parse::<ExtensionsMap>().ok() } else { None };
+        let built = Locale::from_parts(lg, sc, rg, &shuffled, e);
+        let mut want = loc.clone();
+        if !with_ext { want.extensions = ExtensionsMap::default(); }
+        if built != want || built.to_string() != want.to_string() {
+            return format!("LAWFAIL from_parts with reversed + repeated variants ({}) differs: {} vs {}", if with_ext { "Some(extensions)" } else { "None" }, built, want);
+        }
+    }
     format!("OK {}", text)
 }
 pub fn loc_matches(a: &[u8], b: &[u8], ra: bool, rb: bool) -> String {
